@@ -1,4 +1,4 @@
-mod ctx; mod model; mod rng; mod util; mod props; mod chartable;
+mod ctx; mod model; mod rng; mod util; mod props; mod chartable; mod render; mod gen; mod corpus;
 use ctx::{Ctx, Known};
 
 fn load_known(path: &str) -> Vec<Known> {
@@ -19,6 +19,7 @@ fn main() {
     match prop.as_str() {
         "C12" => props::c12::run(&mut ctx),
         "C09" => props::c09::run(&mut ctx),
+        "C04" => props::c04::run(&mut ctx),
         _ => { eprintln!("unknown property {prop}"); std::process::exit(2); }
     }
     ctx.finish(out);
